@@ -153,7 +153,7 @@ func (w *worker) watchdog(memLimit uint64) {
 			fmt.Fprintf(os.Stderr, "MEMORY pos=%d index=%d heap=%d\n", w.casePos.Load(), w.caseIdx.Load(), sample[0].Value.Uint64())
 			os.Exit(4)
 		}
-		if wall := time.Now().UnixNano() - w.caseWall.Load(); wall > int64(10*time.Minute) {
+		if cw := w.caseWall.Load(); cw > 0 && time.Now().UnixNano()-cw > int64(10*time.Minute) {
 			// not a verdict: a case that neither finishes nor burns CPU means the machine (or the harness) is stuck
 			fmt.Fprintf(os.Stderr, "STALL pos=%d index=%d\n", w.casePos.Load(), w.caseIdx.Load())
 			os.Exit(5)
@@ -254,6 +254,7 @@ func WorkerMain(args []string) int {
 		return 64
 	}
 	w.jf = jf
+	w.caseWall.Store(time.Now().UnixNano()) // before the monitor starts: a zero mark would read as a stall of 50 years
 	go w.watchdog(3 << 30)
 	agg := newAgg()
 	agg.Tier = *tier
